@@ -405,10 +405,8 @@ func profileMain(args []string) {
 	}
 	// concurrent drains: step profiles with many levels (every level hand-over is contended), const, line
 	conc := []profSpec{
-		{Kind: "step", FromM: 1000000, ToM: 1300000, Step: 1, DurNs: int64(3500 * time.Microsecond)},
-		{Kind: "step", FromM: 1000000, ToM: 1300000, Step: 1, DurNs: int64(3500 * time.Microsecond)},
-		{Kind: "step", FromM: 1000000, ToM: 1300000, Step: 1, DurNs: int64(3500 * time.Microsecond)},
-		{Kind: "step", FromM: 2000000, ToM: 2600000, Step: 2, DurNs: int64(2500 * time.Microsecond)},
+		{Kind: "step", FromM: 1000000, ToM: 1100000, Step: 1, DurNs: int64(3500 * time.Microsecond)},
+		{Kind: "step", FromM: 2000000, ToM: 2200000, Step: 2, DurNs: int64(2500 * time.Microsecond)},
 		{Kind: "const", FromM: 7000000, ToM: 7000000, DurNs: int64(200 * time.Millisecond)},
 		{Kind: "line", FromM: 0, ToM: 20000000, DurNs: int64(300 * time.Millisecond)},
 		{Kind: "once", Times: 500},
